@@ -139,8 +139,13 @@ type World struct {
 	Restarts, RestartLostPending int
 }
 
-func NewWorld(g *GenSpec) (*World, error) {
-	c, err := chain.New(g.ChainGenesis())
+func NewWorld(g *GenSpec) (*World, error) { return NewWorldDec(g, nil) }
+
+// NewWorldDec: as NewWorld, with the chain's transaction decoder wrapped.
+func NewWorldDec(g *GenSpec, wrap func(sdk.TxDecoder) sdk.TxDecoder) (*World, error) {
+	cg := g.ChainGenesis()
+	cg.WrapDecoder = wrap
+	c, err := chain.New(cg)
 	if err != nil {
 		return nil, err
 	}
